@@ -59,8 +59,9 @@ def gen(chk, mpmath, rng):
                     tolbits = p + int(math.floor((3 - dps // 2) * math.log2(10))) + 1
                     for m in vals:
                         yt = vals[m]._mpf_
-                        if not yt[1] or (which != "exp" and abs(vals[m]) < mp.mpf(2) ** -8):
-                            continue                                        # relative bound at a zero of sin / cos: left to the relational branch below
+                        if not yt[1] or abs(vals[m]) < mp.mpf(2) ** -7:
+                            continue                                        # tiny values (zeros of sin / cos, exp(-a t) decayed far below its scale): the methods bound
+                                                                            # the error relative to the scale of f, so these are left to the mixed bound below
                         w = p + 40 + max(0, at[2] + at[3]) + max(0, -(yt[2] + yt[3]))
                         yield enc.event(0, "real", [enc.f(at)], p, "n", enc.f(yt), pb=0, x={"f": which, "w": w, "tol": tolbits}), \
                             {"key": "series-enclosure/%s/%s" % (which, m), "a": str(a), "t": str(t), "dps": dps, "p": p,
